@@ -194,6 +194,27 @@ def misuse_matrix(ctx):
         t(fam + ' solved rule: coefficients on a foreign random variable', lambda mkr=mkr: (lambda y, z1, z2, e: y.get(z2))(*mkr()))
         t(fam + ' solved bi-affine expression evaluated at a foreign random variable', lambda mkr=mkr: (lambda y, z1, z2, e: e(z2.assign(np.ones(2))))(*mkr()))
 
+    # declarations that cannot mean what they look like: refused instead of silently changing the model
+    for k in ('ro', 'dro'):
+        def one(f, k=k):
+            def run():
+                A, xa, za = mk(k)
+                return f(A, xa, za)
+            return run
+        t(k + ' chained comparison 0 <= x <= 1', one(lambda A, xa, za: A.st(0 <= xa <= 1)))
+        t(k + ' chained comparison on an expression', one(lambda A, xa, za: A.st(0 <= 2 * xa + 1 <= 1)))
+        t(k + ' chained comparison on a robust expression', one(lambda A, xa, za: A.st(0 <= xa @ za <= 1)))
+        t(k + " dvar(3, vtype='INT')", one(lambda A, xa, za: A.dvar(3, vtype='INT')))
+        t(k + " dvar(2, vtype='CX')", one(lambda A, xa, za: A.dvar(2, vtype='CX')))
+        t(k + ' dvar(-2)', one(lambda A, xa, za: A.dvar(-2)))
+        t(k + ' complex coefficients', one(lambda A, xa, za: A.st(xa * np.array([1 + 2j, 1]) <= 1)))
+
+    def emax_plus_eventwise():
+        A = dro.Model(2); y = A.dvar(); x = A.dvar(); z = A.rvar(); fs = A.ambiguity()
+        y.adapt(0); y.adapt(1); fs.suppset(z >= 0, z <= 1); A.minsup(rso.E(x), fs)
+        A.st(rso.E(rso.maxof(1 * z, 0)) + y <= x)
+    t('dro E(maxof) + event-wise decision outside E()', emax_plus_eventwise)
+
     def amb_after(A, xa, za):
         A.st(xa >= 0)
         return A.ambiguity()
